@@ -27,7 +27,12 @@ func init() {
 
 func runC42(c *core.Ctx) {
 	const pkg = "process/throttle/antiflood/floodPreventers"
-	fn := anchorM(c, pkg, "quotaFloodPreventer", "increaseLoad")
+	// the admission: increaseLoad, or - when that helper was folded into its only caller - IncreaseLoad itself
+	// (same parameters: the peer and the message size)
+	fn := optM(c, pkg, "quotaFloodPreventer", "increaseLoad")
+	if fn == nil {
+		fn = anchorM(c, pkg, "quotaFloodPreventer", "IncreaseLoad")
+	}
 	if fn == nil {
 		return
 	}
